@@ -361,7 +361,13 @@ func genTree(r *Rng, del string, st *Stats) []string {
 	for k := 0; k < count; k++ {
 		if len(names) > 0 && r.Chance(3, 5) {
 			base := Pick(r, names)
-			switch r.Intn(4) {
+			switch r.Intn(5) {
+			case 4: // sibling hierarchy that differs in the case of one letter (mailbox names are case-sensitive)
+				tw := nsFlipCase(r, base, r.Chance(1, 3))
+				if r.Bool() {
+					tw += del + genSeg(r, del)
+				}
+				names = append(names, tw)
 			case 0: // child
 				names = append(names, base+del+genSeg(r, del))
 			case 1: // sibling with a common string prefix (not a child)
@@ -387,6 +393,9 @@ func genInferiors(r *Rng, n int, w io.Writer, st *Stats) {
 			parent = Pick(r, names)
 			if sup := strings.Split(parent, del); len(sup) > 1 && r.Chance(1, 2) {
 				parent = strings.Join(sup[:r.Range(1, len(sup)-1)], del)
+			}
+			if r.Chance(1, 6) { // another spelling of an existing level: its inferiors are not this name's
+				parent = nsFlipCase(r, parent, r.Chance(1, 3))
 			}
 		}
 		st.Inc(fmt.Sprintf("inferiors.names=%d", len(names)))
